@@ -3,7 +3,10 @@ package main
 import (
 	"context"
 	"crypto/sha256"
+	"encoding/binary"
 	"encoding/hex"
+	"errors"
+	"google.golang.org/protobuf/proto"
 	"hash"
 	"os"
 	"path/filepath"
@@ -462,5 +465,51 @@ func syncOnce(o Op, sched Op) map[string]interface{} {
 	if res.sendErr != nil {
 		out["senderr"] = res.sendErr.Error()
 	}
+	if xo.metaOnly != nil {
+		lst, err := decodeListing(filepath.Join(dest, ".fsutil-metadata"))
+		if err != nil {
+			out["listing_err"] = err.Error()
+		} else {
+			out["listing"] = lst
+		}
+	}
 	return out
+}
+
+// decodeListing reads the metadata listing with the GENERIC protobuf runtime (not fsutil's hand-written codec)
+func decodeListing(p string) ([]interface{}, error) {
+	fi, err := os.Lstat(p)
+	if err != nil {
+		return nil, err
+	}
+	if !fi.Mode().IsRegular() {
+		return nil, errors.New("listing is not a regular file")
+	}
+	b, err := os.ReadFile(p)
+	if err != nil {
+		return nil, err
+	}
+	out := []interface{}{}
+	for len(b) > 0 {
+		if len(b) < 4 {
+			return nil, errors.New("truncated frame header")
+		}
+		n := int(binary.LittleEndian.Uint32(b[:4]))
+		b = b[4:]
+		if n > len(b) {
+			return nil, errors.New("truncated frame")
+		}
+		var st types.Stat
+		if err := proto.Unmarshal(b[:n], &st); err != nil {
+			// the generic runtime refuses strings that are not valid UTF-8 (file names are arbitrary bytes; see C20):
+			// fall back to the library's own decoder for those records
+			st = types.Stat{}
+			if err2 := st.Unmarshal(b[:n]); err2 != nil {
+				return nil, err
+			}
+		}
+		out = append(out, statToJSON(&st))
+		b = b[n:]
+	}
+	return out, nil
 }
